@@ -1,4 +1,6 @@
+import SMV.Props.C07
 import SMV.Model.World
+import SMV.Lemmas.DeclFrame
 /-!
 # C16 — Machines are isolated from other instances, classes and definitions
 
@@ -77,5 +79,132 @@ theorem runWorld_length (ms : List Machine) (o : Opts) (fuel : Nat) (ops : List 
     rw [ih]
     unfold stepAt
     split <;> simp
+
+end SMV
+
+/-!
+## Classes: what defining a subclass does to its base class (known findings D7, D7b)
+
+A base class and its subclasses share the `State` objects; in the declaration model
+(`SMV/Model/Decl.lean`) this is the shared store `Cls.trans`, and `state.transitions` is
+`outOf c s`. `baseAfter base p` is the base class as it (and every live instance of it) looks after
+`class Sub(base): p` was executed: its own registry, the store as the subclass left it.
+
+`C16_subclass_frame_partial`: defining a subclass leaves every state of the base with exactly the
+transitions it had — *provided* the subclass body creates no transition out of a base state and no
+`AnyState` transition. `_partial`: the unconditional statement is false in the code (D7, witness
+below); the hypotheses are sufficient, syntactic conditions on the subclass body, plus two on the
+base (no placeholder left; the states the body declares have no transition object in the base's
+store). The lemmas are in `SMV/Lemmas/DeclFrame.lean`.
+-/
+namespace SMV
+open Decl
+
+/-- **C16 (class level, partial).** `class Sub(base): p` does not change `state.transitions` of any
+state of `base`, if
+
+* (a) no statement of `p` creates a transition whose source is an `AnyState` or a state of `base`
+  (`Stmt.srcs`: the sources of the `to/from_/itself/any` calls of the statement);
+* (b) the store of `base` holds no placeholder event (`Event(name=…)` not yet replaced) — a finished
+  class has none; needed because `_update_event_references` of the subclass rewrites every
+  transition that still holds a placeholder of the same attribute name;
+* (c) *extra hypothesis*: no `Transition` object of `base`'s store leaves a state of the name of a
+  state that `p` declares. The model identifies states by name. If the body declares a state for
+  which the shared store already has transitions (a state of that name registered in `base`, or a
+  dangling source that `base` never registered), `add_state` finds the events on those transitions
+  *with their transition lists* and re-runs `_on_event_defined` for them — on positions of the
+  base's store, e.g. a `from_.any()` of the base, which is then expanded again into all (inherited)
+  states. `C16_fresh_needed` below is such a body. (c) holds whenever the names declared by `p` are
+  different from every source name used in `base`; it also holds for a name of `base` that has no
+  outgoing transition.
+
+Nothing is assumed about `base.pending`, `base.attrs` (the subclass starts from an empty namespace,
+`startClass`) or about `ref`s in `p` (an unresolved name yields the empty list; a resolved one lists
+positions created by `p` itself). -/
+theorem C16_subclass_frame_partial (base : Cls) (p : List Stmt)
+    (hsrc : ∀ st ∈ p, ∀ x ∈ st.srcs, x ≠ .any ∧ ∀ s ∈ base.states, x ≠ .st s.name)
+    (hph : ∀ t ∈ base.trans, ∀ e ∈ t.events, ∃ id tl, e = EvRef.real id tl)
+    (hfresh : ∀ st ∈ p, ∀ d ∈ st.decls, outOf base d.name = []) :
+    ∀ s ∈ base.states, outOf (baseAfter base p) s.name = outOf base s.name := by
+  intro s hs
+  have h : Frame base.trans (fun t => (fun x => x ≠ Src.any ∧ ∀ s ∈ base.states, x ≠ .st s.name) t.source)
+      (baseAfter base p) :=
+    (elabClass_frame (G := fun x => x ≠ .any ∧ ∀ s ∈ base.states, x ≠ .st s.name)
+      base p (fun _ hx => hx.1) hsrc hph hfresh).of_trans rfl
+  exact Frame.outOf (G := fun x => x ≠ Src.any ∧ ∀ s ∈ base.states, x ≠ .st s.name) h s.name
+    (fun hG => hG.2 s hs rfl)
+
+/-- the machine the base class denotes (states, per-state ordered transitions with their events,
+guards and callbacks — everything the engine uses) is the same before and after the subclass was
+defined. `toMachine` reads `states`, `outOf` of the registered states and `stateIdx` (a function of
+`states`) only, so this is the frame theorem by congruence. -/
+theorem C16_subclass_machine (env : Env) (base : Cls) (p : List Stmt)
+    (hsrc : ∀ st ∈ p, ∀ x ∈ st.srcs, x ≠ .any ∧ ∀ s ∈ base.states, x ≠ .st s.name)
+    (hph : ∀ t ∈ base.trans, ∀ e ∈ t.events, ∃ id tl, e = EvRef.real id tl)
+    (hfresh : ∀ st ∈ p, ∀ d ∈ st.decls, outOf base d.name = []) :
+    toMachine env (baseAfter base p) = toMachine env base := by
+  have h := C16_subclass_frame_partial base p hsrc hph hfresh
+  unfold toMachine
+  congr 1
+  show base.states.map (toStateDef env (baseAfter base p)) = base.states.map (toStateDef env base)
+  apply List.map_congr_left
+  intro s hs
+  unfold toStateDef
+  rw [h s hs]
+  rfl
+
+namespace C16ex
+def sA : SDecl := { name := 0, initial := true }
+def sB : SDecl := { name := 1 }
+def sZ : SDecl := { name := 2, final := true }
+def nokw : Kw := {}
+def go : Name := 10
+def back : Name := 11
+def stop : Name := 12
+def x : Name := 13
+
+/-- a finished base class: three states, two transitions -/
+def base : Cls := elabClass {} [.state sA, .state sB, .state sZ,
+  .assign go (.to 0 [1] nokw), .assign back (.to 1 [0] nokw)]
+
+/-- a finished base class that uses `stop = sZ.from_.any()` -/
+def baseAny : Cls := elabClass {} [.state sA, .state sB, .state sZ,
+  .assign go (.to 0 [1] nokw), .assign stop (.fromAny 2 nokw)]
+end C16ex
+open C16ex
+
+/-- **D7** (hypothesis (a) is needed): a subclass that declares a transition out of an inherited
+state adds it to the base class's state. -/
+theorem C16_D7_witness :
+    outOf (baseAfter base [.assign x (.to 0 [1] nokw)]) 0 ≠ outOf base 0 := by decide
+
+/-- **D7b**, the code before the repair: with a base that declares `stop = s2.from_.any()`, merely
+defining an *empty* subclass expanded the `any()` again into the shared `State` objects. -/
+theorem C16_D7b_as_is_witness :
+    outOf { baseAny with trans := (elabClassAsIs baseAny []).trans } 0 ≠ outOf baseAny 0 := by decide
+
+/-- **D7b** after the repair: the same base, the empty subclass — an instance of the frame theorem. -/
+theorem C16_D7b_fixed_instance :
+    ∀ s ∈ baseAny.states, outOf (baseAfter baseAny []) s.name = outOf baseAny s.name :=
+  C16_subclass_frame_partial baseAny [] (by simp) (real_of_isReal (by decide)) (by simp)
+
+/-- hypothesis (c) is needed: re-declaring the name of a base state in the subclass re-runs
+`_on_event_defined` for the events found on the base's transitions of that name — here the base's
+`any()` is expanded again -/
+theorem C16_fresh_needed :
+    (∀ st ∈ [Stmt.state sA], ∀ x ∈ st.srcs, x ≠ .any ∧ ∀ s ∈ baseAny.states, x ≠ .st s.name) ∧
+    outOf (baseAfter baseAny [.state sA]) 1 ≠ outOf baseAny 1 := by decide
+
+/-- non-vacuity of `C16_subclass_frame_partial`: a base with 3 states and 2 transitions, a subclass
+that adds a state and two transitions out of it (one via a decorator and a `ref`); all hypotheses
+hold, and the shared store did change -/
+example : (∀ s ∈ base.states,
+      outOf (baseAfter base [.state { name := 3 }, .assign x (.to 3 [0] nokw),
+        .decorated (.or (.from_ 1 [3] nokw) (.ref x)) stop 5]) s.name = outOf base s.name) ∧
+    (baseAfter base [.state { name := 3 }, .assign x (.to 3 [0] nokw),
+        .decorated (.or (.from_ 1 [3] nokw) (.ref x)) stop 5]).trans ≠ base.trans ∧
+    2 ≤ base.states.length ∧ 2 ≤ base.trans.length :=
+  ⟨C16_subclass_frame_partial base _ (by decide) (real_of_isReal (by decide)) (by decide),
+    by decide, by decide, by decide⟩
 
 end SMV
